@@ -1,6 +1,9 @@
 use crate::data::machine::{State, Transition};
 
+#[cfg(not(kiki_verif))]
 use std::collections::HashSet;
+#[cfg(kiki_verif)]
+use crate::verif_collections::HashSet;
 
 #[derive(Debug, Clone)]
 pub struct UnnormalizedMachine {
